@@ -1,4 +1,5 @@
 import I18n.Model.Locale
+import I18n.Generated.Ling
 import I18n.Driver.Util
 /- Driver for the locale model: `locale <op> <hex args…>` (see tools/checks/locale_common.py for the grammar). -/
 namespace I18n.Driver.Locale
@@ -35,7 +36,61 @@ def untable (s : String) : List (List Char × List Char) :=
     | [a, b] => some (Driver.unhexChars a, Driver.unhexChars b)
     | _ => none
 
+/-- the definitions REGENERATED from lib/ling.py (`I18n.Generated.Ling`), on the protocol of the hand-written ops above -/
+def showLangG (l : Language) : String :=
+  match Generated.Ling.Language.__str__ l with
+  | .ok s => s!"{hx l.ll} {hxo l.cc} {hxo l.enc} {hxo l.mod} str={hx s}"
+  | .error e => "err " ++ e.name
+
+def handleGenerated (op : String) (args : List String) : Option String :=
+  match op, args with
+  | "gparse", [h] =>
+    some (match Generated.Ling.parse_language (Driver.unhexChars h) with
+      | .ok l => "ok " ++ showLangG l
+      | .error e => "err " ++ e.name)
+  | "gfix", [h] =>
+    some (match Generated.Ling.parse_language (Driver.unhexChars h) with
+      | .error e => "err " ++ e.name
+      | .ok l =>
+        match Generated.Ling.Language.fix_codes l with
+        | .error e => "err " ++ e.name
+        | .ok (fixed, l') => s!"ok fixed={if fixed == some true then 1 else 0} " ++ showLangG l')
+  | "glookup", [h] =>
+    some (match Generated.Ling._lookup_language_code (Driver.unhexChars h) with
+      | .ok r => "ok " ++ hxo r
+      | .error e => "err " ++ e.name)
+  | "gterritory", [h] =>
+    some (match Generated.Ling.lookup_territory_code (Driver.unhexChars h) with
+      | .ok r => "ok " ++ hxo r
+      | .error e => "err " ++ e.name)
+  | "galmost", [a, b] =>
+    some (match Generated.Ling.parse_language (Driver.unhexChars a), Generated.Ling.parse_language (Driver.unhexChars b) with
+      | .ok x, .ok y =>
+        match Generated.Ling.Language.is_almost_equal x y, Generated.Ling.Language.__eq__ x y with
+        | .ok r, .ok e => s!"ok {if r then 1 else 0} {if e then 1 else 0}"
+        | .error e, _ => "err " ++ e.name
+        | _, .error e => "err " ++ e.name
+      | _, _ => "err LanguageSyntaxError")
+  | "gcli", [h] =>
+    -- the statements of lib/cli.py for `-l`, over the regenerated methods
+    some (match Generated.Ling.parse_language (Driver.unhexChars h) with
+      | .error e => if e.isLanguageError then "err invalid-language" else "err " ++ e.name
+      | .ok l =>
+        match Generated.Ling.Language.fix_codes l with
+        | .error e => if e.isLanguageError then "err invalid-language" else "err " ++ e.name
+        | .ok (_, l) =>
+          match Generated.Ling.Language.remove_encoding l with
+          | .error e => "err " ++ e.name
+          | .ok (_, l) =>
+            match Generated.Ling.Language.remove_nonlinguistic_modifier l with
+            | .error e => "err " ++ e.name
+            | .ok (_, l) => "ok " ++ showLangG l)
+  | _, _ => none
+
 def handle (op : String) (args : List String) : String :=
+  match handleGenerated op args with
+  | some r => r
+  | none =>
   match op, args with
   | "parse", [h] => showLangE (parseLanguageE (Driver.unhexChars h))
   | "fix", [h] =>
